@@ -115,15 +115,11 @@ Proof. intros; subst; assumption. Qed.
 
 Lemma co_resume_tr : forall k vals s r s', Inv s -> co_resume k vals s = (r, s') -> forall j, trk (stof s j) (stof s' j).
 Proof.
-  intros k vals s r s' I H j. unfold co_resume in H.
-  destruct (match vals with [] => (COk, s) | _ :: _ => co_push k vals s end) as [r1 s1] eqn:P.
+  intros k vals s r s' I H j.
+  destruct (co_resume_cases _ _ _ _ _ I H) as [(-> & s1 & P & R)|(_ & ->)]; [|apply trk_same].
   assert (S1 : same_ctl s s1).
   { destruct vals; [inversion P; subst; apply same_ctl_refl|eapply co_push_same; eauto]. }
-  pose proof (same_ctl_Inv _ _ S1 I) as I1.
-  rewrite <- (same_ctl_stof _ _ S1 j).
-  destruct r1; try (inversion H; subst; apply trk_same).
-  destruct (mco_resume k s1) as [e s2] eqn:R. inversion H; subst.
-  eapply mco_resume_tr; eauto.
+  rewrite <- (same_ctl_stof _ _ S1 j). eapply mco_resume_tr; [eapply same_ctl_Inv; eauto|exact R].
 Qed.
 
 Lemma co_yield_tr : forall vals s r s', Inv s -> co_yield vals s = (r, s') -> forall j, trk (stof s j) (stof s' j).
